@@ -70,13 +70,15 @@ Proof. exact macrobody_flag_stops_run. Qed.
 Print Assumptions C16_macrobody_flag_stops_run.
 
 (* the written SURF lines: exactly the representatives (after de-duplication)
-   of the surfaces used by the cells that survive, each with its descriptor *)
+   of the TRIPOLI-4 surfaces (sub-surfaces of collections included) used by the
+   volumes of the cells that survive, each with its descriptor *)
 Theorem C16_written_surfaces_exact :
   forall (dedup : bool) (t : table) (cells : list cell) (surfs : list (N * N)) (k d : N),
   geometry dedup t cells = Ok surfs ->
   (In (k, d) surfs <->
    dict_get k (number_items t) = Some d /\
-   exists c k0, In c cells /\ survives dedup (number_items t) c /\ bounds c k0 /\
+   exists c k0, In c cells /\ survives dedup (number_items t) (matching_of t) c /\
+                uses (matching_of t) c k0 /\
                 repr_of dedup (number_items t) k0 = Some k).
 Proof. exact written_surfaces_exact. Qed.
 Print Assumptions C16_written_surfaces_exact.
@@ -94,7 +96,8 @@ Theorem C16_bc_designates_present_same_locus :
   parse_cards cards [] = Ok t ->
   run cfg cards cells = Ok (surfs, bcs) ->
   In (k, e) t -> (e_flag e = "*" \/ e_flag e = "+") ->
-  (exists c, In c cells /\ survives (negb (skip_dedup cfg)) (number_items t) c /\ bounds c k) ->
+  (exists c, In c cells /\ survives (negb (skip_dedup cfg)) (number_items t) (matching_of t) c /\
+             names c k) ->
   let k' := rep (negb (skip_dedup cfg)) (number_items t) k in
   In (kind_of (e_flag e), k') bcs /\ count_key k' bcs = 1%nat /\ In (k', e_first e) surfs.
 Proof. exact bc_designates_present_same_locus. Qed.
@@ -132,6 +135,32 @@ Theorem C16_conflicting_flags_rejected :
 Proof. exact conflicting_flags_rejected. Qed.
 Print Assumptions C16_conflicting_flags_rejected.
 
+(* which written surface carries the entry of a collection (one-sheet cone:
+   the flagged number designates the cone, the auxiliary plane gets a fresh id
+   above every surface number): every designated number is a surface number of
+   the dictionary, so no auxiliary sub-surface ever carries an entry; with
+   C16_bc_designates_present_same_locus the entry of *k KZ ... +-1 is on rep k
+   and that SURF has the descriptor of the first sub-surface, the cone *)
+Theorem C16_bc_designates_keys :
+  forall (cfg : config) (cards : list scard) (cells : list cell) (t : table)
+         (surfs : list (N * N)) (bcs : list (kind * N)) (kd : kind) (k' : N),
+  skip_bc cfg = false ->
+  parse_cards cards [] = Ok t ->
+  run cfg cards cells = Ok (surfs, bcs) -> In (kd, k') bcs ->
+  In k' (map fst t) /\ (k' <= max_key t)%N.
+Proof. exact bc_designates_keys. Qed.
+Print Assumptions C16_bc_designates_keys.
+
+Theorem C16_aux_ids_above : forall (t : table) (x : N),
+  In x (map fst (number_items t)) -> ~ In x (map fst t) -> (max_key t < x)%N.
+Proof.
+  intros t x Hx Hn. unfold number_items in Hx.
+  assert (H : (N.succ (max_key t) <= x)%N).
+  { eapply aux_ids_above; eauto. intros k e Hin. pose proof (max_key_ge t k e Hin). lia. }
+  lia.
+Qed.
+Print Assumptions C16_aux_ids_above.
+
 (* the TRIPOLI-4 numbering has distinct ids (keys, then fresh ids for the
    other parts) *)
 Theorem C16_number_items_distinct : forall t : table,
@@ -139,22 +168,55 @@ Theorem C16_number_items_distinct : forall t : table,
 Proof. exact number_items_nodup. Qed.
 Print Assumptions C16_number_items_distinct.
 
+(* the two main statements for ANY complete surface dictionary with distinct
+   keys and ANY list of cells (each an intersection of parts): this is what
+   every pass that adds copies (TRCL, 1000 * cell + surface, and the FILL
+   development, which is not modelled) feeds; the statements about [run] and
+   [run_t] are instances *)
+Theorem C16_finish_designates :
+  forall (cfg : config) (t : table) (cells : list cell)
+         (surfs : list (N * N)) (bcs : list (kind * N)) (k : N) (e : entry),
+  skip_bc cfg = false -> NoDup (map fst t) ->
+  finish cfg t cells = Ok (surfs, bcs) ->
+  In (k, e) t -> (e_flag e = "*" \/ e_flag e = "+") ->
+  (exists c, In c cells /\ survives (negb (skip_dedup cfg)) (number_items t) (matching_of t) c /\
+             names c k) ->
+  let k' := rep (negb (skip_dedup cfg)) (number_items t) k in
+  In (kind_of (e_flag e), k') bcs /\ count_key k' bcs = 1%nat /\ In (k', e_first e) surfs.
+Proof. exact finish_designates. Qed.
+Print Assumptions C16_finish_designates.
+
+Theorem C16_finish_sound :
+  forall (cfg : config) (t : table) (cells : list cell)
+         (surfs : list (N * N)) (bcs : list (kind * N)),
+  skip_bc cfg = false -> NoDup (map fst t) ->
+  finish cfg t cells = Ok (surfs, bcs) ->
+  NoDup (map snd bcs) /\
+  forall kd k', In (kd, k') bcs ->
+    exists k e, In (k, e) t /\ e_flag e <> "" /\
+      (e_flag e = "*" -> kd = Reflection) /\ (e_flag e = "+" -> kd = Cosinus) /\
+      rep (negb (skip_dedup cfg)) (number_items t) k = k' /\ In (k', e_first e) surfs.
+Proof. exact finish_sound. Qed.
+Print Assumptions C16_finish_sound.
+
 (* ---- decks whose cells may carry TRCL (what the correspondence executes) -- *)
 
 (* [run] is [run_t] on decks whose cells are all converted and carry no TRCL,
    so the statements about [run] above are statements about [run_t] *)
-Theorem C16_run_t_plain : forall (cfg : config) (cards : list scard) (cells : list cell),
-  run_t cfg cards (map plain cells) = run cfg cards cells.
+Theorem C16_run_t_plain : forall (cfg : config) (cards : list scard) (cs : list (N * list Z)),
+  (forall c z, In c cs -> In z (snd c) -> (Z.abs_N z < 1000)%N) ->
+  run_t cfg cards (map plain cs) = run cfg cards (map one_part cs).
 Proof. exact run_t_plain. Qed.
 Print Assumptions C16_run_t_plain.
 
-(* the surface dictionary after the TRCL loop: the parsed cards, then the
-   copies; all keys distinct; every copy carries the flag (and part count) of
-   a parsed card *)
+(* the surface dictionary once every copy is made: the parsed cards, then the
+   implicit surfaces 1000 * cell + surface, then the copies made for the
+   literals of cells with TRCL; all keys distinct; every addition carries the
+   flag (and part count) of a parsed card *)
 Theorem C16_expanded_table :
   forall (t : table) (cells : list (bool * cell)) (t' : table) (cs : list tcell),
   NoDup (map fst t) ->
-  apply_trcls cs t (N.succ (max_key t)) = Ok (cells, t') ->
+  expand_table cs t = Ok (cells, t') ->
   NoDup (map fst t') /\
   (forall k e, In (k, e) t -> In (k, e) t') /\
   (forall k e, In (k, e) t' -> inherits t e).
@@ -170,11 +232,12 @@ Theorem C16_bc_designates_present_same_locus_trcl :
          (surfs : list (N * N)) (bcs : list (kind * N)) (k : N) (e : entry),
   skip_bc cfg = false ->
   parse_cards cards [] = Ok t ->
-  apply_trcls tcells t (N.succ (max_key t)) = Ok (cells, t') ->
+  expand_table tcells t = Ok (cells, t') ->
   run_t cfg cards tcells = Ok (surfs, bcs) ->
   In (k, e) t' -> (e_flag e = "*" \/ e_flag e = "+") ->
   (exists c, In c (converted cells) /\
-             survives (negb (skip_dedup cfg)) (number_items t') c /\ bounds c k) ->
+             survives (negb (skip_dedup cfg)) (number_items t') (matching_of t') c /\
+             names c k) ->
   let k' := rep (negb (skip_dedup cfg)) (number_items t') k in
   In (kind_of (e_flag e), k') bcs /\ count_key k' bcs = 1%nat /\ In (k', e_first e) surfs.
 Proof. exact bc_designates_present_same_locus_trcl. Qed.
@@ -186,7 +249,7 @@ Theorem C16_bc_entries_designate_written_trcl :
          (surfs : list (N * N)) (bcs : list (kind * N)),
   skip_bc cfg = false ->
   parse_cards cards [] = Ok t ->
-  apply_trcls tcells t (N.succ (max_key t)) = Ok (cells, t') ->
+  expand_table tcells t = Ok (cells, t') ->
   run_t cfg cards tcells = Ok (surfs, bcs) ->
   NoDup (map snd bcs) /\
   forall kd k', In (kd, k') bcs ->
@@ -202,7 +265,7 @@ Theorem C16_conflicting_flags_rejected_trcl :
          (k1 : N) (e1 : entry) (k2 : N) (e2 : entry),
   skip_bc cfg = false ->
   parse_cards cards [] = Ok t -> proper t ->
-  apply_trcls tcells t (N.succ (max_key t)) = Ok (cells, t') ->
+  expand_table tcells t = Ok (cells, t') ->
   geometry (negb (skip_dedup cfg)) t' (converted cells) = Ok surfs ->
   In (k1, e1) t' -> e_flag e1 = "*" -> In (k2, e2) t' -> e_flag e2 = "+" ->
   rep (negb (skip_dedup cfg)) (number_items t') k1 =
@@ -221,11 +284,23 @@ Theorem C16_trcl_copy_in_table :
   In c tcells -> tc_trcl c = true -> In l (tc_lits c) ->
   exists t cells t' e k',
     parse_cards cards [] = Ok t /\
-    apply_trcls tcells t (N.succ (max_key t)) = Ok (cells, t') /\
+    expand_table tcells t = Ok (cells, t') /\
     dict_get (Z.abs_N (l_z l)) t' = Some e /\
-    In (k', mkE (e_flag e) (e_mcnp e) (l_cls l) (l_aux l)) t'.
+    In (k', mkE (e_flag e) (e_mcnp e) (l_cls l) (l_aux l) (l_sides l)) t'.
 Proof. exact trcl_copy_in_table. Qed.
 Print Assumptions C16_trcl_copy_in_table.
+
+Theorem C16_bc_designates_keys_trcl :
+  forall (cfg : config) (cards : list scard) (tcells : list tcell) (t : table)
+         (cells : list (bool * cell)) (t' : table)
+         (surfs : list (N * N)) (bcs : list (kind * N)) (kd : kind) (k' : N),
+  skip_bc cfg = false ->
+  parse_cards cards [] = Ok t ->
+  expand_table tcells t = Ok (cells, t') ->
+  run_t cfg cards tcells = Ok (surfs, bcs) -> In (kd, k') bcs ->
+  In k' (map fst t') /\ (k' <= max_key t')%N.
+Proof. exact bc_designates_keys_trcl. Qed.
+Print Assumptions C16_bc_designates_keys_trcl.
 
 (* unflagged surfaces yield none: a deck without a flagged card has no entry,
    whatever its cells and their TRCL *)
@@ -269,14 +344,14 @@ Print Assumptions C16_bc_stale_kind_quirk.
    unflagged, a white sphere, de-duplication on; the hypotheses of the main
    theorem hold for 3, its entry is on SURF 2 *)
 Example C16_example :
-  let cards := [mkS "1" 1 5 []; mkS "2" 1 7 []; mkS "*3" 1 7 []; mkS "+9" 1 8 []] in
-  let cells := [(1%N, [(-1)%Z; 3%Z; (-9)%Z])] in
+  let cards := [mkS "1" 1 5 [] []; mkS "2" 1 7 [] []; mkS "*3" 1 7 [] []; mkS "+9" 1 8 [] []] in
+  let cells := [(1%N, [[(-1)%Z; 3%Z; (-9)%Z]])] in
   exists t e,
     parse_cards cards [] = Ok t /\
     run (mkCfg false false) cards cells =
       Ok ([(1, 5); (2, 7); (9, 8)]%N, [(Reflection, 2%N); (Cosinus, 9%N)]) /\
     In (3%N, e) t /\ e_flag e = "*" /\
-    (exists c, In c cells /\ survives true (number_items t) c /\ bounds c 3) /\
+    (exists c, In c cells /\ survives true (number_items t) (matching_of t) c /\ names c 3) /\
     rep true (number_items t) 3 = 2%N.
 Proof.
   cbv zeta. eexists. eexists.
@@ -285,9 +360,10 @@ Proof.
   split; [right; right; left; reflexivity|].
   split; [reflexivity|].
   split; [|vm_compute; reflexivity].
-  exists (1%N, [(-1)%Z; 3%Z; (-9)%Z]). split; [left; reflexivity|]. split.
-  - exists [2%N], [1%N; 9%N]. repeat split; vm_compute; reflexivity.
-  - left. left. reflexivity.
+  exists (1%N, [[(-1)%Z; 3%Z; (-9)%Z]]). split; [left; reflexivity|]. split.
+  - eexists. vm_compute. reflexivity.
+  - exists [(-1)%Z; 3%Z; (-9)%Z], 3%Z. split; [left; reflexivity|].
+    split; [right; left; reflexivity|]. split; [discriminate|reflexivity].
 Qed.
 
 (* non-vacuity with TRCL: *2 PX 0 used only by a cell with TRCL=(1 0 0); the
@@ -295,11 +371,12 @@ Qed.
 Example C16_example_trcl :
   exists t cells t' e,
     parse_cards w_trcl_cards [] = Ok t /\
-    apply_trcls w_trcl_cells t (N.succ (max_key t)) = Ok (cells, t') /\
+    expand_table w_trcl_cells t = Ok (cells, t') /\
     run_t (mkCfg false false) w_trcl_cards w_trcl_cells =
       Ok ([(4, 9); (6, 15); (7, 8)]%N, [(Reflection, 7%N)]) /\
     In (7%N, e) t' /\ e_flag e = "*" /\ e_first e = 8%N /\
-    (exists c, In c (converted cells) /\ survives true (number_items t') c /\ bounds c 7).
+    (exists c, In c (converted cells) /\ survives true (number_items t') (matching_of t') c /\
+               names c 7).
 Proof.
   eexists. eexists. eexists. eexists.
   split; [vm_compute; reflexivity|].
@@ -307,9 +384,10 @@ Proof.
   split; [vm_compute; reflexivity|].
   split; [do 4 right; left; reflexivity|].
   split; [reflexivity|]. split; [reflexivity|].
-  exists (1%N, [(-6)%Z; 7%Z; (-8)%Z]). split; [left; reflexivity|]. split.
-  - exists [7%N], [6%N; 4%N]. repeat split; vm_compute; reflexivity.
-  - left. left. reflexivity.
+  exists (1%N, [[(-6)%Z; 7%Z; (-8)%Z]]). split; [left; reflexivity|]. split.
+  - eexists. vm_compute. reflexivity.
+  - exists [(-6)%Z; 7%Z; (-8)%Z], 7%Z. split; [left; reflexivity|].
+    split; [right; left; reflexivity|]. split; [discriminate|reflexivity].
 Qed.
 
 (* non-vacuity of C16_conflicting_flags_rejected: *2 PX 0 and +3 PX 0, the cell
@@ -353,4 +431,54 @@ Proof.
   split; [vm_compute; reflexivity|].
   split; [intros []; vm_compute; reflexivity|].
   split; vm_compute; reflexivity.
+Qed.
+
+(* one-sheet cone: *7 KZ 0 1 1 and 3 PZ 0, de-duplication on.  The cell -7 3 -9
+   becomes one volume with the cone 7 on the minus side and the plane on the
+   plus side; the auxiliary plane (fresh id 10) is merged into 3; the entry is
+   on the cone *)
+Example C16_example_cone :
+  exists t e,
+    parse_cards w_cone_cards [] = Ok t /\
+    number_items t = [(3, 8); (7, 14); (10, 8); (9, 11)]%N /\
+    matching_of t = [(3%N, [3%Z]); (7%N, [7%Z; (-10)%Z]); (9%N, [9%Z])] /\
+    run (mkCfg false false) w_cone_cards w_cone_cells =
+      Ok ([(3, 8); (7, 14); (9, 11)]%N, [(Reflection, 7%N)]) /\
+    run (mkCfg true false) w_cone_cards w_cone_cells =
+      Ok ([(3, 8); (7, 14); (9, 11); (10, 8)]%N, [(Reflection, 7%N)]) /\
+    In (7%N, e) t /\ e_flag e = "*" /\ e_aux e = [8%N] /\
+    (exists c, In c w_cone_cells /\ survives true (number_items t) (matching_of t) c /\
+               names c 7).
+Proof.
+  eexists. eexists.
+  split; [vm_compute; reflexivity|].
+  split; [vm_compute; reflexivity|].
+  split; [vm_compute; reflexivity|].
+  split; [vm_compute; reflexivity|].
+  split; [vm_compute; reflexivity|].
+  split; [right; left; reflexivity|]. split; [reflexivity|]. split; [reflexivity|].
+  exists (1%N, [[(-7)%Z; 3%Z; (-9)%Z]]). split; [left; reflexivity|]. split.
+  - eexists. vm_compute. reflexivity.
+  - exists [(-7)%Z; 3%Z; (-9)%Z], (-7)%Z. split; [left; reflexivity|].
+    split; [left; reflexivity|]. split; [discriminate|reflexivity].
+Qed.
+
+(* surface numbers >= 1000: *7 PX 0 (class 7); cell 2 has TRCL=(1 0 0) and does
+   not name 7; cell 3 (no TRCL) names 2007 = surface 7 as moved by the TRCL of
+   cell 2 (PX 1: class 8).  The implicit surface inherits the flag: its entry
+   is on SURF 2007; the card 7 itself bounds nothing and has no entry *)
+Example C16_example_implicit :
+  let cards := [mkS "1" 1 5 [] []; mkS "*7" 1 7 [] []; mkS "4" 1 9 [] []] in
+  let tcells := [mkC 2 true true [mkL (-1) 15 [] []] [(7%N, mkD 8 [] [])];
+                 mkC 3 true false [mkL 2007 0 [] []; mkL (-4) 0 [] []] []] in
+  exists t cells t' e,
+    parse_cards cards [] = Ok t /\ expand_table tcells t = Ok (cells, t') /\
+    In (2007%N, e) t' /\ e_flag e = "*" /\ e_first e = 8%N /\
+    run_t (mkCfg false false) cards tcells =
+      Ok ([(4, 9); (2007, 8); (2009, 15)]%N, [(Reflection, 2007%N)]).
+Proof.
+  cbv zeta. eexists. eexists. eexists. eexists.
+  split; [vm_compute; reflexivity|]. split; [vm_compute; reflexivity|].
+  split; [do 3 right; left; reflexivity|]. split; [reflexivity|]. split; [reflexivity|].
+  vm_compute. reflexivity.
 Qed.
